@@ -243,7 +243,79 @@ func watermarkWindowGroup(c *Ctx, rule string) {
 			ops = append(ops, bo.Op.String())
 		}
 	}
-	c.Decide(len(ops) == 1 && ops[0] == "<", rule, key(fn, "drop-only:idx<newBase"), fn.Pos(), len(ops)+1, "only indices strictly below the new base are dropped", fmt.Sprintf("the window rebuild drops indices with `idx %v newBase` (expected exactly `<`): the pending mark of the oldest unfinished index (doneUntil+1) is lost and doneUntil advances past it", ops))
+	// where does the carry-over loop start?  slot i holds index base+i, and index newBase
+	// (= doneUntil+1, the oldest possibly unfinished one) must be visited: the first visited
+	// slot is 0, or (newBase - base) + K with K <= 0
+	startK, startKnown := int64(0), false
+	var newBaseVal ssa.Value
+	AllInstrs(fn, false, func(in ssa.Instruction) {
+		if v := valueOf(in); v != nil && isDonePlusOne(v) {
+			newBaseVal = v
+		}
+	})
+	for _, ld := range Calls(fn, false, Named("(*sync/atomic.Int32).Load")) {
+		ia, ok := ld.Common().Args[0].(*ssa.IndexAddr)
+		if !ok || fieldNameOf(ia.X) != "slots" {
+			continue
+		}
+		var inits []ssa.Value
+		switch x := Unwrap(ia.Index).(type) {
+		case *ssa.BinOp: // range loop: phi(-1, self)+1
+			if ph, ok := x.X.(*ssa.Phi); ok && x.Op == token.ADD {
+				for _, e := range ph.Edges {
+					if e != ssa.Value(x) {
+						inits = append(inits, e)
+					}
+				}
+				startKnown = true
+				for _, e := range inits {
+					if k, ok := ConstInt(e); !ok || k+1 > 0 {
+						startKnown = false
+					}
+				}
+			}
+		case *ssa.Phi: // index loop: phi(start, i+1)
+			startKnown = true
+			var walk func(v ssa.Value, depth int)
+			walk = func(v ssa.Value, depth int) {
+				v = Unwrap(v)
+				if bo, ok := v.(*ssa.BinOp); ok && bo.Op == token.ADD && Unwrap(bo.X) == ssa.Value(x) {
+					return // i++
+				}
+				if k, ok := ConstInt(v); ok {
+					if k > 0 {
+						startKnown = false
+					}
+					return
+				}
+				if ph, ok := v.(*ssa.Phi); ok && ph != x && depth < 4 {
+					for _, e := range ph.Edges {
+						walk(e, depth+1)
+					}
+					return
+				}
+				af := AffineOf(v, newBaseVal)
+				okShape := len(af.Terms) == 2
+				for t, k := range af.Terms {
+					if !(t == newBaseVal && k == 1) && !(fieldNameOf(t) == "base" && k == -1) {
+						okShape = false
+					}
+				}
+				if !okShape {
+					startKnown = false
+					return
+				}
+				if af.K > startK {
+					startK = af.K
+				}
+			}
+			for _, e := range x.Edges {
+				walk(e, 0)
+			}
+		}
+	}
+	filterOK := len(ops) == 0 || (len(ops) == 1 && ops[0] == "<")
+	c.Decide(filterOK && startKnown && startK <= 0, rule, key(fn, "drop-only:idx<newBase"), fn.Pos(), len(ops)+2, "the carry-over loop reaches the slot of index newBase and drops only indices strictly below the new base", fmt.Sprintf("the window rebuild does not carry over index newBase = doneUntil+1 (filter `idx %v newBase`, first visited slot (newBase-base)%+d, start derivable: %v): the pending mark of the oldest unfinished index is lost and doneUntil advances past it", ops, startK, startKnown))
 	// newBase = DoneUntil()+1
 	nb := false
 	AllInstrs(fn, false, func(in ssa.Instruction) {
@@ -743,4 +815,217 @@ func gcReinsertAtomicGroup(c *Ctx, rule string) {
 	c.Decide(inSerial || !constVersion, rule, key(rw, "reinsert#atomic-with-liveness-check"), decider.Pos(), len(reach)+1,
 		ifs(inSerial, "liveness is (re)decided inside the commit worker's serial section", "plain writes carry distinct versions"),
 		"GC decides liveness in rewrite (outside the commit worker) and re-inserts later, while every plain write of a key uses the same constant version: an acknowledged plain overwrite committed between the check and the re-insert is shadowed by the stale re-inserted value")
+}
+
+// levelDisjointGroup: levels >= 1 are searched in exactly one table per key (binary search on
+// MaxKey), which is only correct while the tables of a level have disjoint key ranges.  A
+// compaction keeps that invariant only if it takes in every next-level table that overlaps
+// the range it writes.
+func levelDisjointGroup(c *Ctx, rule string) {
+	c.Rule(rule, "compact.OverlappingTables returns the half-open interval of tables overlapping [kr.Left, kr.Right]: its first sort.Search predicate is `kr.Left <= tables[i].MaxKey` and its second `kr.Right < tables[i].MinKey` (first table that starts beyond the range), both through utils.CompareKeys; PlanForRegular, PlanForIngestShard and PlanForL0ToLbase take their bottom tables from it")
+	fn := c.Fn("lsm/compact", "OverlappingTables")
+	if fn == nil {
+		return
+	}
+	searches := Calls(fn, false, Named("sort.Search"))
+	c.Decide(len(searches) == 2, rule, key(fn, "two-binary-searches"), fn.Pos(), len(searches)+1, "left and right bound are binary searches", fmt.Sprintf("%d sort.Search calls in OverlappingTables (expected 2: left and right bound)", len(searches)))
+	// which search feeds which result
+	for _, r := range Returns(fn) {
+		if len(r.Results) != 2 {
+			continue
+		}
+		for ri, want := range [][3]string{{"Left", "MaxKey", "<="}, {"Right", "MinKey", "<"}} {
+			v := RetVal(r, ri)
+			var cl *ssa.Function
+			for _, s := range searches {
+				if s.Value() == v {
+					if mc, ok := s.Common().Args[1].(*ssa.MakeClosure); ok {
+						cl, _ = mc.Fn.(*ssa.Function)
+					}
+				}
+			}
+			name := []string{"left", "right"}[ri]
+			if cl == nil {
+				// the constant (0, 0) early return
+				if k, ok := ConstInt(v); ok && k == 0 {
+					continue
+				}
+				c.Fail(rule, key(fn, name+"-bound#predicate"), r.Pos(), 1, "the %s bound is not the result of a sort.Search with an inline predicate", name)
+				continue
+			}
+			c.Touch(cl)
+			krF, tbF, op, ok := boundPredicate(cl)
+			good := ok && krF == want[0] && tbF == want[1] && op == want[2]
+			c.Decide(good, rule, key(fn, name+"-bound#predicate"), cl.Pos(), 3, fmt.Sprintf("kr.%s %s tables[i].%s", want[0], want[2], want[1]),
+				fmt.Sprintf("the %s bound is computed with `kr.%s %s tables[i].%s` (recognised: %v), expected `kr.%s %s tables[i].%s`: a next-level table that overlaps the compaction range only partly is left out, the level ends up with overlapping tables and keys that live only in the older one become unreadable", name, krF, op, tbF, ok, want[0], want[2], want[1]))
+		}
+	}
+	for _, pl := range []string{"PlanForRegular", "PlanForIngestShard", "PlanForL0ToLbase"} {
+		if pf := c.Fn("lsm/compact", pl); pf != nil {
+			need(c, rule, pf, false, "OverlappingTables", Named("lsm/compact.OverlappingTables"), 1)
+		}
+	}
+}
+
+// boundPredicate decodes `return utils.CompareKeys(a, b) OP 0` into (KeyRange field,
+// TableMeta field, OP) with the KeyRange operand on the left.
+func boundPredicate(cl *ssa.Function) (krField, tblField, op string, ok bool) {
+	for _, r := range Returns(cl) {
+		bo, isB := RetVal(r, 0).(*ssa.BinOp)
+		if !isB {
+			return "", "", "", false
+		}
+		call, isC := bo.X.(*ssa.Call)
+		z, isZ := ConstInt(bo.Y)
+		o := bo.Op
+		if !isC {
+			// 0 OP cmp
+			call, isC = bo.Y.(*ssa.Call)
+			z, isZ = ConstInt(bo.X)
+			o = flipOp(o)
+		}
+		if !isC || !isZ || z != 0 || !Named("utils.CompareKeys")(call.Common()) {
+			return "", "", "", false
+		}
+		a, b := call.Call.Args[0], call.Call.Args[1]
+		ao, af, _ := fieldOfLoad(a)
+		bo2, bf, _ := fieldOfLoad(b)
+		switch {
+		case strings.HasSuffix(ao, "KeyRange") && strings.HasSuffix(bo2, "TableMeta"):
+			return af, bf, o.String(), true
+		case strings.HasSuffix(ao, "TableMeta") && strings.HasSuffix(bo2, "KeyRange"):
+			return bf, af, flipOp(o).String(), true
+		}
+		return "", "", "", false
+	}
+	return "", "", "", false
+}
+
+func flipOp(o token.Token) token.Token {
+	switch o {
+	case token.LSS:
+		return token.GTR
+	case token.GTR:
+		return token.LSS
+	case token.LEQ:
+		return token.GEQ
+	case token.GEQ:
+		return token.LEQ
+	}
+	return o
+}
+
+// fieldOfLoad: v is a load of (or a Field of) owner.field, possibly through an index.
+func fieldOfLoad(v ssa.Value) (owner, field string, ok bool) {
+	v = Unwrap(v)
+	switch x := v.(type) {
+	case *ssa.UnOp:
+		if x.Op == token.MUL {
+			return FieldOf(x.X)
+		}
+	case *ssa.Field:
+		return FieldOf(x)
+	}
+	return "", "", false
+}
+
+// seekGapGroup: a table's forward Seek picks the last block whose base key is <= target and
+// seeks inside it.  blockIterator.seek reports io.EOF when every entry of that block is below
+// the target; the first entry at or after the target is then the first entry of the NEXT block.
+// A table-level Seek that does not continue there turns "between two blocks" into "not found":
+// an MVCC read at a timestamp between two versions that straddle a block boundary misses the
+// older version.
+func seekGapGroup(c *Ctx, rule string) {
+	c.Rule(rule, "tableIterator.Seek (ascending): after seekHelper(idx-1, key) — idx being the first block whose base key is above the target — the iterator's error is compared with io.EOF and, on equality, seekHelper(idx, key) continues in the next block; blockIterator.seek yields that EOF by positioning at len(entryOffsets)")
+	fn := c.Fn("lsm", "tableIterator.Seek")
+	if fn == nil {
+		return
+	}
+	sh := Calls(fn, false, Named("lsm.(*tableIterator).seekHelper"))
+	searches := Calls(fn, false, Named("sort.Search"))
+	isSearch := func(v ssa.Value) bool {
+		for _, s := range searches {
+			if s.Value() == v {
+				return true
+			}
+		}
+		return false
+	}
+	// EOF tests on tableIterator.err
+	var eofEdges [][2]*ssa.BasicBlock
+	for _, b := range fn.Blocks {
+		ifi := ifOf(b)
+		if ifi == nil {
+			continue
+		}
+		var visit func(v ssa.Value, pol bool)
+		visit = func(v ssa.Value, pol bool) {
+			bo, ok := v.(*ssa.BinOp)
+			if !ok {
+				return
+			}
+			if bo.Op != token.EQL && bo.Op != token.NEQ {
+				return
+			}
+			x, y := bo.X, bo.Y
+			isErr := func(v ssa.Value) bool { return isFieldLoad(v, "lsm.tableIterator", "err") }
+			isEOF := func(v ssa.Value) bool {
+				u, ok := v.(*ssa.UnOp)
+				if !ok {
+					return false
+				}
+				g, ok := u.X.(*ssa.Global)
+				return ok && g.Name() == "EOF" && g.Pkg != nil && g.Pkg.Pkg.Path() == "io"
+			}
+			if (isErr(x) && isEOF(y)) || (isErr(y) && isEOF(x)) {
+				if (bo.Op == token.EQL) == pol {
+					eofEdges = append(eofEdges, [2]*ssa.BasicBlock{b, b.Succs[0]})
+				} else {
+					eofEdges = append(eofEdges, [2]*ssa.BasicBlock{b, b.Succs[1]})
+				}
+			}
+		}
+		visit(ifi.Cond, true)
+	}
+	// errors.Is(it.err, io.EOF) form
+	for _, ei := range Calls(fn, false, Named("errors.Is")) {
+		if call, ok := ei.(*ssa.Call); ok && isFieldLoad(call.Call.Args[0], "lsm.tableIterator", "err") {
+			for _, r := range *call.Referrers() {
+				if ifi, ok := r.(*ssa.If); ok {
+					eofEdges = append(eofEdges, [2]*ssa.BasicBlock{ifi.Block(), ifi.Block().Succs[0]})
+				}
+			}
+		}
+	}
+	var prev, next []ssa.CallInstruction
+	for _, s := range sh {
+		arg := s.Common().Args[1]
+		if bo, ok := arg.(*ssa.BinOp); ok && bo.Op == token.SUB && isSearch(bo.X) {
+			if k, ok := ConstInt(bo.Y); ok && k == 1 {
+				prev = append(prev, s)
+			}
+		}
+		if isSearch(arg) {
+			next = append(next, s)
+		}
+	}
+	c.Decide(len(prev) >= 1, rule, key(fn, "has:seekHelper(idx-1)"), fn.Pos(), len(sh)+1, "candidate block is the last one whose base key is <= target", "tableIterator.Seek no longer seeks in block idx-1")
+	// the ascending continuation: some seekHelper(idx) lies behind an EOF edge that follows a seekHelper(idx-1)
+	good := false
+	for _, nx := range next {
+		for _, e := range eofEdges {
+			if !EdgeDominates(e[0], e[1], nx.Block()) {
+				continue
+			}
+			for _, pv := range prev {
+				if Dominates(pv.(ssa.Instruction), nx.(ssa.Instruction)) {
+					good = true
+				}
+			}
+		}
+	}
+	c.Decide(good, rule, key(fn, "gap:EOF(idx-1)->seekHelper(idx)"), fn.Pos(), len(eofEdges)+len(next)+1, "a target beyond the last entry of block idx-1 continues with the first entry of block idx", "after seeking in block idx-1 the iterator's io.EOF (every entry of that block is below the target) is not followed by a seek into block idx: a target that falls between two blocks makes the iterator invalid, and table.Search reports `not found` for a version that exists in the next block")
+	if bs := c.Fn("lsm", "blockIterator.seek"); bs != nil {
+		need(c, rule, bs, false, "setIdx", Named("lsm.(*blockIterator).setIdx"), 1)
+	}
 }
